@@ -43,10 +43,9 @@ func (m c13Model) key() string {
 // c13Universe returns the attester strings of the universe for the tier.
 func c13Universe(tier string) (strs []string, nkeys int) {
 	nkeys = 3
-	spell := []int{1} // extra spellings of K1
+	spell := []int{1, 2} // extra spellings of K1: 0x-prefixed, upper-case
 	if tier == "thorough" {
 		nkeys = 4
-		spell = []int{1, 2}
 	}
 	for i := 0; i < nkeys; i++ {
 		strs = append(strs, Keys[i].Hex)
